@@ -360,8 +360,17 @@ def r201(ctx, rep, f, ev, cg, reach):
         for x, n in tb.walk():
             if n["k"] in ("Assign", "AssignOp"):
                 li, ln = tb.e(n["l"])
-                if ln["k"] == "Field" and ln.get("name") in ("header_id", "rdh0_validator"):
-                    bad.append(ln.get("name"))
+                path_ = []
+                while ln["k"] in ("Field", "Deref", "Index") and "e" in ln:
+                    if ln["k"] == "Field":
+                        path_.append(ln.get("name"))
+                    li, ln = tb.e(ln["e"])
+                path_.reverse()
+                # whole-object or whole-validator overwrite, or the header id itself
+                if not path_ or path_ == ["rdh0_validator"] or (path_[:1] == ["rdh0_validator"] and "header_id" in path_):
+                    bad.append(".".join(path_) or "*self")
+            if n["k"] == "Call" and (n.get("fn") or "").split("::")[-1] in ("replace", "swap", "take") and "mem::" in (n.get("fn") or ""):
+                bad.append("mem::%s" % n["fn"].split("::")[-1])
     rep.check(tb is not None and not bad, "R20.1", "R20.1|rdh_version|specialize", "specialize() leaves the configured header id in place", W3,
               "specialize() overwrites %s, dropping the configured rdh_version" % bad)
     nfc = "fastpasta::analyze::validators::rdh::RdhCruSanityValidator::<T>::new_from_config"
